@@ -206,20 +206,23 @@ def run_case(case):
                     continue
                 if c.__module__.split(".")[-1] in ("partonic_channel",) or cname.startswith("_"):
                     continue
-                for ratio in case["ratios"]:
-                    e = FakeESF(case["x"], ratio)
+                # every mass ratio in two representations: Q2 varied at unit mass, and the mass varied at one common Q2 (a kernel is a
+                # function of the ratio; state keyed by Q2 alone or by the mass alone shows in one of the two scans)
+                reps = [(r_, r_, 1.0) for r_ in case["ratios"]] + ([(r_, 50.0, 50.0 / r_) for r_ in case["ratios"]] if fam != "light" else [])
+                for ratio, q2_, msq_ in reps:
+                    e = FakeESF(case["x"], q2_)
                     try:
                         if fam == "light":
                             inst = c(e, nf)
                         elif fam == "heavy":
-                            inst = c(e, nf, m2hq=1.0, n3lo_cf_variation=case["variation"]) if proc == "nc" else c(e, nf, m2hq=1.0)
+                            inst = c(e, nf, m2hq=msq_, n3lo_cf_variation=case["variation"]) if proc == "nc" else c(e, nf, m2hq=msq_)
                         elif fam == "asy":
-                            inst = c(e, nf, m2hq=1.0, n3lo_cf_variation=case["variation"])
+                            inst = c(e, nf, m2hq=msq_, n3lo_cf_variation=case["variation"])
                         else:
-                            inst = c(e, nf, m1sq=1.0, m2sq=1.0) if proc == "nc" else c(e, nf, m1sq=1.0)
+                            inst = c(e, nf, m1sq=msq_, m2sq=msq_) if proc == "nc" else c(e, nf, m1sq=msq_)
                     except TypeError:
                         try:
-                            inst = c(e, nf, m2hq=1.0) if fam in ("heavy", "asy") else c(e, nf)
+                            inst = c(e, nf, m2hq=msq_) if fam in ("heavy", "asy") else c(e, nf)
                         except Exception:
                             continue
                     for o in range(4):
@@ -235,7 +238,7 @@ def run_case(case):
                             cp = float(inst.convolution_point())
                         except Exception:  # noqa: BLE001
                             cp = None
-                        todo.append((f"{fam}.{kind}_{proc}.{cname}.o{o}", f"{fam}|{kind}_{proc}|{cname}|o{o}|nf{nf}", rsl, dict(nf=nf, ratio=ratio, cpoint=cp, sibling=(kind != case["kind"]))))
+                        todo.append((f"{fam}.{kind}_{proc}.{cname}.o{o}", f"{fam}|{kind}_{proc}|{cname}|o{o}|nf{nf}", rsl, dict(nf=nf, ratio=ratio, cpoint=cp, sibling=(kind != case["kind"]), rep=f"Q2={q2_:g}")))
         elif case["mode"] == "splitting":
             from yadism.coefficient_functions import splitting_functions as split
 
@@ -270,7 +273,7 @@ def run_case(case):
     counters["rsl_init"] = len(created)
     seen = set()
     for label, key, rsl, info in todo:
-        sig = (label, fname(rsl.reg), fname(rsl.sing), fname(rsl.loc), tuple(rsl.args["reg"].tolist()), tuple(rsl.args["sing"].tolist()), tuple(rsl.args["loc"].tolist()), str(info.get("ratio")))
+        sig = (label, fname(rsl.reg), fname(rsl.sing), fname(rsl.loc), tuple(rsl.args["reg"].tolist()), tuple(rsl.args["sing"].tolist()), tuple(rsl.args["loc"].tolist()), str(info.get("ratio")), info.get("rep"))
         if sig in seen:
             continue
         seen.add(sig)
